@@ -1,4 +1,5 @@
 import ExprModel.Proofs.SourcePos
+import ExprModel.Gen.SetLocation
 /-
 C13 — Errors point at the offending source position.
 
@@ -275,5 +276,199 @@ example : let src := "a\t+ 'é'\n  b.c\n".toList
     snippet src 2 = .ok ("  b.c".toList, true) ∧ snippet src 3 = .ok ([], true) ∧
     snippet src 4 = .ok ([], false) ∧ snippet src 0 = .ok ([], false) ∧ snippet src (-1) = .ok ([], false) := by
   decide
+
+/-! ## Part 2 — where locations come from: facts regenerated from /repo on every run
+
+`Gen.Loc.*` is rewritten by translator/locsites.go from the current Go source; each theorem below is a
+kernel-checked comparison with the table the property relies on.  A constructor that stops calling
+`SetLocation`, passes another token, a new unlocated error site, `emit` recording another node or the
+VM reading another offset makes the corresponding `decide` fail. -/
+
+open ExprModel.LocFacts
+
+/-- **Node location table**: for every node constructor of parser/parser.go, which token's location the
+    node receives.  Operator token for unary / binary / `matches`; the literal's own token for
+    bool / nil / number / string; the name token for identifier / function / builtin; the member name
+    after `.` for property / method; the `[` for index / slice; the opening bracket for array / map /
+    closure, and also for map pairs and bare map keys; `#` for the pointer.
+    `ConditionalNode` is the one constructor that is NOT followed by `SetLocation` (as the code is today). -/
+theorem node_loc_table :
+    Gen.Loc.parserSites.map (fun s => (s.node, roleOf s)) =
+      [("MatchesNode", .binaryOp), ("BinaryNode", .binaryOp), ("UnaryNode", .unaryOp), ("PointerNode", .pointerTok),
+       ("ConditionalNode", .none),
+       ("BoolNode", .ownToken), ("BoolNode", .ownToken), ("NilNode", .ownToken), ("FloatNode", .ownToken),
+       ("IntegerNode", .ownToken), ("IntegerNode", .ownToken), ("StringNode", .ownToken),
+       ("BuiltinNode", .nameToken), ("FunctionNode", .nameToken), ("IdentifierNode", .nameToken),
+       ("ClosureNode", .openBracket), ("ArrayNode", .openBracket),
+       ("StringNode", .openBracket), ("PairNode", .openBracket), ("MapNode", .openBracket),
+       ("MethodNode", .memberName), ("PropertyNode", .memberName),
+       ("SliceNode", .indexBracket), ("SliceNode", .indexBracket), ("IndexNode", .indexBracket)] := by
+  decide +kernel
+
+/-- every `SetLocation` call of parser.go directly follows a constructor and is counted above; the
+    only constructor without one is `ConditionalNode` -/
+theorem parser_unlocated_constructors :
+    (Gen.Loc.parserSites.filter (fun s => s.locArg == "")).map (·.node) = ["ConditionalNode"] ∧
+    (Gen.Loc.parserSites.filter (fun s => s.locArg != "")).length = Gen.Loc.parserSetLocationCalls ∧
+    Gen.Loc.parserSites.all (fun s => s.locArg == "" || s.locArg == "token.Location") = true := by
+  decide +kernel
+
+/-- the parameter `token` of `parseIdentifierExpression` / `parseArrayExpression` / `parseMapExpression`
+    is the token captured at the entry of `parsePrimaryExpression` (an Identifier, resp. `[`, `{`) -/
+theorem token_parameters_are_entry_tokens :
+    Gen.Loc.tokenPasses =
+      [{ caller := "parsePrimaryExpression", callee := "parseIdentifierExpression", args := "token, p.current",
+         guards := ["switch token.Kind", "case Identifier", "switch token.Value", "default"] },
+       { caller := "parsePrimaryExpression", callee := "parseArrayExpression", args := "token",
+         guards := ["switch token.Kind", "default", "token.Is(Bracket, \"[\")"] },
+       { caller := "parsePrimaryExpression", callee := "parseMapExpression", args := "token",
+         guards := ["switch token.Kind", "default", "else", "token.Is(Bracket, \"{\")"] }] ∧
+    Gen.Loc.parserFirstStmt.lookup "parsePrimary" = some "token := p.current" ∧
+    Gen.Loc.parserFirstStmt.lookup "parseClosure" = some "token := p.current" ∧
+    Gen.Loc.parserFirstStmt.lookup "parsePostfixExpression" = some "token := p.current" := by
+  decide +kernel
+
+/-- `ast.Patch` copies type and location of the replaced node; the patch closures of the optimizer
+    passes go through it -/
+theorem patch_copies_location :
+    Gen.Loc.astPatchBody = ["newNode.SetType((*node).Type())", "newNode.SetLocation((*node).Location())", "*node = newNode"] ∧
+    Gen.Loc.baseSetLocationBody = ["n.loc = loc"] ∧ Gen.Loc.baseLocationBody = ["return n.loc"] ∧
+    Gen.Loc.foldPatchBody = ["fold.applied = true", "Patch(node, newNode)"] ∧
+    Gen.Loc.foldPatchWithTypeBody = ["patch(newNode)", "newNode.SetType(leafType)"] ∧
+    Gen.Loc.constExprPatchBody = ["c.applied = true", "Patch(node, newNode)"] := by
+  decide +kernel
+
+/-- **Nodes created by rewrites**: every node literal of optimizer/*.go and compiler/patcher.go is either
+    handed to `Patch` (and inherits the location of the node it replaces) or sits in a field of another
+    new node and is never located.  The unlocated ones, exactly: the `ConstantNode` sets of the in-array
+    rewrite (they cannot fail on their own) and the two comparison nodes of the in-range rewrite (they
+    can: `x >= 1` on a non-number) — see `c13:inrange-rewrite-no-location`. -/
+theorem created_nodes_table :
+    Gen.Loc.createdNodes.map (fun c => (c.file, c.node, c.how)) =
+      [("optimizer/const_expr.go", "ConstantNode", "patch-var:patch"),
+       ("optimizer/const_range.go", "ConstantNode", "patch-arg:Patch"),
+       ("optimizer/const_range.go", "ConstantNode", "patch-arg:Patch"),
+       ("optimizer/fold.go", "IntegerNode", "patch-arg:patchWithType"),
+       ("optimizer/fold.go", "IntegerNode", "patch-arg:patchWithType"),
+       ("optimizer/fold.go", "IntegerNode", "patch-arg:patchWithType"),
+       ("optimizer/fold.go", "StringNode", "patch-arg:patch"),
+       ("optimizer/fold.go", "IntegerNode", "patch-arg:patchWithType"),
+       ("optimizer/fold.go", "IntegerNode", "patch-arg:patchWithType"),
+       ("optimizer/fold.go", "IntegerNode", "patch-arg:patchWithType"),
+       ("optimizer/fold.go", "IntegerNode", "patch-arg:patch"),
+       ("optimizer/fold.go", "FloatNode", "patch-arg:patch"),
+       ("optimizer/fold.go", "ConstantNode", "patch-arg:patch"),
+       ("optimizer/fold.go", "ConstantNode", "patch-arg:patch"),
+       ("optimizer/in_array.go", "BinaryNode", "patch-arg:Patch"),
+       ("optimizer/in_array.go", "ConstantNode", "field:Right of BinaryNode"),
+       ("optimizer/in_array.go", "BinaryNode", "patch-arg:Patch"),
+       ("optimizer/in_array.go", "ConstantNode", "field:Right of BinaryNode"),
+       ("optimizer/in_range.go", "BinaryNode", "patch-arg:Patch"),
+       ("optimizer/in_range.go", "BinaryNode", "field:Left of BinaryNode"),
+       ("optimizer/in_range.go", "BinaryNode", "field:Right of BinaryNode"),
+       ("optimizer/in_range.go", "UnaryNode", "patch-arg:Patch"),
+       ("compiler/patcher.go", "FunctionNode", "patch-var:ast.Patch")] := by
+  decide +kernel
+
+theorem unlocated_created_nodes :
+    (Gen.Loc.createdNodes.filter (fun c => hasSub c.how "field:")).map (fun c => (c.file, c.node)) =
+      [("optimizer/in_array.go", "ConstantNode"), ("optimizer/in_array.go", "ConstantNode"),
+       ("optimizer/in_range.go", "BinaryNode"), ("optimizer/in_range.go", "BinaryNode")] := by
+  decide +kernel
+
+/-- **Every error site is located, except the listed ones.**  Located: the lexer at `l.loc`, the parser
+    at the current token, the checker at the offending node, the two fold errors and the const-expr
+    error at the rewritten node, the VM at `program.Locations[vm.pp]`.  Unlocated (plain `fmt.Errorf`):
+    the misuse check of `Eval`, the `expect` error of `checker.Check` (twice), the recover of
+    `compiler.Compile`, the option checks of conf/config.go (4), `vm.Run(nil)`; the ten `fmt.Errorf` of
+    lexer/utils.go are re-raised by `root` through the located `l.error("%v", err)`. -/
+theorem every_error_site_is_located :
+    (Gen.Loc.errSites.filter (fun e => e.loc != "")).map (fun e => (e.file, e.fn, e.loc)) =
+      [("checker/checker.go", "(*visitor).error", "node.Location()"),
+       ("optimizer/const_expr.go", "(*constExpr).Exit", "(*node).Location()"),
+       ("optimizer/fold.go", "(*fold).Exit", "(*node).Location()"),
+       ("optimizer/fold.go", "(*fold).Exit", "(*node).Location()"),
+       ("parser/parser.go", "(*parser).error", "p.current.Location"),
+       ("parser/lexer/lexer.go", "(*lexer).error", "l.loc"),
+       ("vm/vm.go", "(*VM).Run", "program.Locations[vm.pp]")] ∧
+    ((Gen.Loc.errSites.filter (fun e => e.loc == "" && e.file != "parser/lexer/utils.go")).map
+        (fun e => (e.file, e.fn, e.kind))) =
+      [("expr.go", "Eval", "fmt.Errorf"),
+       ("checker/checker.go", "Check", "fmt.Errorf"),
+       ("checker/checker.go", "Check", "fmt.Errorf"),
+       ("compiler/compiler.go", "Compile", "fmt.Errorf"),
+       ("conf/config.go", "(*Config).Check", "fmt.Errorf"),
+       ("conf/config.go", "(*Config).Check", "fmt.Errorf"),
+       ("conf/config.go", "(*Config).Check", "fmt.Errorf"),
+       ("conf/config.go", "(*Config).ConstExpr", "fmt.Errorf"),
+       ("vm/vm.go", "Run", "fmt.Errorf")] ∧
+    (Gen.Loc.errSites.filter (fun e => e.file == "parser/lexer/utils.go")).all
+        (fun e => e.fn == "unescape" || e.fn == "unescapeChar") = true ∧
+    Gen.Loc.unescapeErrorWrapped = true ∧
+    Gen.Loc.errSites.all (fun e => e.kind == "file.Error" → e.loc != "") = true := by
+  decide +kernel
+
+/-- the node whose location each `v.error(node, …)` of the checker uses: the node being checked,
+    except slice bounds (`node.From` / `node.To`), call arguments (`arg`), builtin arguments and the
+    condition of a conditional (`node.Cond`) -/
+theorem checker_error_nodes :
+    Gen.Loc.checkerErrorArgs.filter (fun p => p.2 != "node") =
+      [("SliceNode", "node.From"), ("SliceNode", "node.To"), ("checkFunc", "arg"),
+       ("BuiltinNode", "node.Arguments[0]"), ("BuiltinNode", "node.Arguments[1]"), ("BuiltinNode", "node.Arguments[1]"),
+       ("BuiltinNode", "node.Arguments[0]"), ("BuiltinNode", "node.Arguments[1]"), ("BuiltinNode", "node.Arguments[1]"),
+       ("BuiltinNode", "node.Arguments[0]"), ("BuiltinNode", "node.Arguments[1]"),
+       ("BuiltinNode", "node.Arguments[0]"), ("BuiltinNode", "node.Arguments[1]"), ("BuiltinNode", "node.Arguments[1]"),
+       ("ConditionalNode", "node.Cond")] ∧
+    Gen.Loc.checkerErrorArgs.length = 37 := by
+  decide +kernel
+
+/-- `checker.Check` returns the unlocated `expect` error BEFORE looking at the located first error
+    (as the code is today; see `c13:expect-masks-located-error`) -/
+theorem check_returns_expect_error_first :
+    Gen.Loc.checkTail =
+      ["if v.expect != reflect.Invalid { switch v.expect { case reflect.Int64, reflect.Float64: if !isNumber(t) { return nil, fmt.Errorf(\"expected %v, but got %v\", v.expect, t) } default: if t.Kind() != v.expect { return nil, fmt.Errorf(\"expected %v, but got %v\", v.expect, t) } } }",
+       "if v.err != nil { return t, v.err.Bind(tree.Source) }",
+       "return t, nil"] := by
+  decide +kernel
+
+/-- lexer and parser bind their first error to the source they were given -/
+theorem lex_parse_bind :
+    Gen.Loc.lexReturns = ["return nil, l.err.Bind(source)", "return l.tokens, nil"] ∧
+    Gen.Loc.parseReturns = ["return nil, err", "return nil, p.err.Bind(source)", "return &Tree{ Node: node, Source: source, }, nil"] := by
+  decide +kernel
+
+/-- the lexer's position bookkeeping is the rule `posOfAux` models: newline ⇒ line+1, column 0;
+    otherwise column+1; `backup` restores the previous location -/
+theorem lexer_rule_is_posOf :
+    Gen.Loc.lexerNextBody =
+      ["if l.end >= len(l.input) { l.width = 0 return eof }", "r, w := utf8.DecodeRuneInString(l.input[l.end:])",
+       "l.width = w", "l.end += w", "l.prev = l.loc",
+       "if r == '\\n' { l.loc.Line++ l.loc.Column = 0 } else { l.loc.Column++ }", "return r"] ∧
+    Gen.Loc.lexerBackupBody = ["l.end -= l.width", "l.loc = l.prev"] := by
+  decide +kernel
+
+/-- **Compiler**: `emit` stores, under the offset of the opcode byte it has just appended
+    (`current-1`), the location of the node on top of the node stack; `compile` pushes the node it is
+    compiling and pops it on return; nothing else writes `locations` or `nodes`; the program carries
+    that map and the source. -/
+theorem emit_records_top_node :
+    Gen.Loc.emitBody =
+      ["c.bytecode = append(c.bytecode, op)", "current := len(c.bytecode)", "c.bytecode = append(c.bytecode, b...)",
+       "var loc file.Location", "if len(c.nodes) > 0 { loc = c.nodes[len(c.nodes)-1].Location() }",
+       "c.locations[current-1] = loc", "return current"] ∧
+    Gen.Loc.compilePrologue = ["c.nodes = append(c.nodes, node)", "defer func() { c.nodes = c.nodes[:len(c.nodes)-1] }()"] ∧
+    Gen.Loc.locationsWrites = ["emit: c.locations[current-1] = loc"] ∧
+    Gen.Loc.nodesWrites = ["compile: c.nodes = append(c.nodes, node)", "compile: c.nodes = c.nodes[:len(c.nodes)-1]"] ∧
+    Gen.Loc.programLiteral = ["Source: tree.Source", "Locations: c.locations", "Constants: c.constants", "Bytecode: c.bytecode"] := by
+  decide +kernel
+
+/-- **VM**: `pp` is the offset of the opcode being executed (set at the loop head, nowhere else), and
+    the recover handler reports `program.Locations[vm.pp]` bound to `program.Source` -/
+theorem vm_reports_location_of_current_opcode :
+    Gen.Loc.vmLoopHead = ["if vm.debug { <-vm.step }", "vm.pp = vm.ip", "vm.ip++", "op := vm.bytecode[vm.pp]"] ∧
+    Gen.Loc.vmPpWrites = ["Run: vm.pp = 0", "Run: vm.pp = vm.ip"] ∧
+    Gen.Loc.vmRunDefer =
+      "defer func() { if r := recover(); r != nil { f := &file.Error{ Location: program.Locations[vm.pp], Message: fmt.Sprintf(\"%v\", r), } err = f.Bind(program.Source) } }()" := by
+  decide +kernel
 
 end ExprModel.C13
